@@ -43,7 +43,7 @@ def all_jobs(harness, grammars, maxlen_by_nterm, extra=None, split_from=3):
     return jobs
 
 
-NEAR_BASES = {"G1": 4, "G2": 2, "G3": 3, "G4": 2, "G5": 3, "G6": 2, "G7": 3, "G8": 2, "G9": 4, "G10": 4, "G11": 2, "G12": 4, "G13": 4, "G14": 3, "G15": 4, "G16": 2, "G17": 2, "G18": 2, "G19": 4, "G20": 3, "G21": 4, "G22": 4, "G23": 3, "G24": 4, "G25": 4, "G26": 1, "G27": 2, "G28": 2, "G29": 4, "G30": 4, "G31": 4, "G32": 4, "G33": 4, "G34": 4, "G35": 4, "G36": 4, "G37": 4, "G38": 4, "G39": 2, "G40": 2, "G41": 4, "G42": 4, "G43": 4, "G44": 2}
+NEAR_BASES = {"G1": 4, "G2": 2, "G3": 3, "G4": 2, "G5": 3, "G6": 2, "G7": 3, "G8": 2, "G9": 4, "G10": 4, "G11": 2, "G12": 4, "G13": 4, "G14": 3, "G15": 4, "G16": 2, "G17": 2, "G18": 2, "G19": 4, "G20": 3, "G21": 4, "G22": 4, "G23": 3, "G24": 4, "G25": 4, "G26": 1, "G27": 2, "G28": 2, "G29": 4, "G30": 4, "G31": 4, "G32": 4, "G33": 4, "G34": 4, "G35": 4, "G36": 4, "G37": 4, "G38": 4, "G39": 2, "G40": 2, "G41": 4, "G42": 4, "G43": 4, "G44": 2, "G45": 1, "G46": 2, "G47": 2}
 
 
 def near_jobs(harness, grammars, edits, extra=None):
@@ -69,6 +69,7 @@ def rep_jobs(harness, b, extra=None):
     return jobs
 
 
+PAD_RULE = "; pad slices: NEAR(1) inputs of pad_grammars with 70 unused terminals declared after or before the grammar's own, so that terminal sets span two machine words"
 AGAIN_RULE = "; extra_all slices with again=1: the reported parse is the second one of the same grammar object on the same input, after the owner has released the first result"
 REP_RULE = "; input family REP(m): m fragments, each chosen from the first nfrag entries of the grammar's fragment list, followed by one of its tails (repeated phrases: goto cache, context table)"
 
@@ -106,10 +107,12 @@ def plan_C01(tier, seed):
     jobs += rep_jobs("hC01.c", b)
     for x in b.get("extra_all", []):
         jobs += all_jobs("hC01.c", x["grammars"], x["all_len"], x["params"])
+    for pad in b.get("pad", []):
+        jobs += near_jobs("hC01.c", b["pad_grammars"], 1, {"pad": pad})
     jobs += sg_jobs(1, b)
     wit = [{"harness": "hC01.c", "params": {"grammar": GIDX["G1"], "len": 2, "first": -1, "witness": 1}}]
     return {"jobs": jobs, "witness": wit, "bounds": b,
-            "rule": "one state = one complete path of the harness = (catalogue grammar, token-kind sequence of the stated length, one of 24 configurations lookahead x one_parse x cost x recovery); token attributes are symbolic 64-bit values; the solver enumerates exactly the feasible sequences, every assertion is discharged per path" + REP_RULE + AGAIN_RULE + SG_RULE,
+            "rule": "one state = one complete path of the harness = (catalogue grammar, token-kind sequence of the stated length, one of 24 configurations lookahead x one_parse x cost x recovery); token attributes are symbolic 64-bit values; the solver enumerates exactly the feasible sequences, every assertion is discharged per path" + REP_RULE + AGAIN_RULE + PAD_RULE + SG_RULE,
             "assumptions": ["derivability oracle: naive least fixpoint over spans (spec/oracle.h), independent of yaep"]}
 
 
@@ -145,6 +148,9 @@ def simple_plan(prop, harness, rule, assumptions, extra_params=None, sg_prop=Non
         if "near_grammars" in b:
             jobs += near_jobs(harness, b["near_grammars"], b["near_edits"], ep)
         jobs += rep_jobs(harness, b, ep)
+        for pad in b.get("pad", []):          # unused terminals declared after (> 0) or before (< 0) the grammar's own
+            xp = dict(ep); xp["pad"] = pad
+            jobs += near_jobs(harness, b["pad_grammars"], 1, xp)
         for x in b.get("extra_all", []):      # further ALL(N) slices under extra harness parameters
             xp = dict(ep); xp.update(x["params"])
             jobs += all_jobs(harness, x["grammars"], x["all_len"], xp)
@@ -153,7 +159,7 @@ def simple_plan(prop, harness, rule, assumptions, extra_params=None, sg_prop=Non
         if harness == "hRec.c":
             jobs += sge_jobs(b, ep)
         w = dict(ep); w.update({"grammar": GIDX[b["grammars"][0]], "len": 3, "first": -1, "witness": 1})
-        return {"jobs": jobs, "witness": [{"harness": harness, "params": w}], "bounds": b, "defs": tuple(b.get("defs", ())), "rule": rule + (REP_RULE if "rep" in b else "") + (AGAIN_RULE if "extra_all" in b else "") + (SG_RULE if sg_prop else ""), "assumptions": assumptions}
+        return {"jobs": jobs, "witness": [{"harness": harness, "params": w}], "bounds": b, "defs": tuple(b.get("defs", ())), "rule": rule + (REP_RULE if "rep" in b else "") + (AGAIN_RULE if "extra_all" in b else "") + (PAD_RULE if "pad" in b else "") + (SG_RULE if sg_prop else ""), "assumptions": assumptions}
     return plan
 
 
@@ -182,9 +188,10 @@ def plan_C11(tier, seed):
     for n in range(1, b["nbytes"] + 1):
         jobs.append({"harness": "hC11.c", "params": {"mode": 1, "nbytes": n}, "weight": 30 ** n})
     jobs.append({"harness": "hC11.c", "params": {"mode": 2}, "weight": 20})
+    jobs.append({"harness": "hC11.c", "params": {"mode": 3}, "weight": 300})
     wit = [{"harness": "hC11.c", "params": {"mode": 2, "witness": 1}}]
     return {"jobs": jobs, "witness": wit, "bounds": b,
-            "rule": "mode 0: one state = (catalogue grammar rendered as text, layout style x optional semicolons x comment x symbolic white-space byte, one_parse); inside the path the text-defined and the callback-defined twin are compared on every token sequence up to maxlen; with hist=1 (hist_grammars) the layout is fixed except the style and one of five other descriptions (syntax error, bad translation number, repeated code, accepted, conflicting redeclaration) is read first by the same or another object; mode 1: one state = one class of byte strings of the stated length that the lexer/parser distinguishes (bytes fully symbolic); mode 2: character constant with symbolic character 1..127",
+            "rule": "mode 0: one state = (catalogue grammar rendered as text, layout style x optional semicolons x comment x symbolic white-space byte, one_parse); inside the path the text-defined and the callback-defined twin are compared on every token sequence up to maxlen; with hist=1 (hist_grammars) the layout is fixed except the style and one of five other descriptions (syntax error, bad translation number, repeated code, accepted, conflicting redeclaration) is read first by the same or another object; mode 1: one state = one class of byte strings of the stated length that the lexer/parser distinguishes (bytes fully symbolic); mode 2: character constant with symbolic character 1..127; mode 3: four erroneous descriptions with each gap between tokens chosen from {blank, newline, two newlines, newline + comment}",
             "assumptions": ["denoted grammar of a rendering computed by the harness (implicit codes 256.. in order of appearance)", "characters above 127 in character constants are outside the claim (char signedness)"]}
 
 
